@@ -219,7 +219,7 @@ def r4(run):
                            "when the scan runs to its end the thread always signals done (unless a delivery failed)", reason="hand-off-skipped")
     # the hand-off carries the last scanned id and the delivered count
     tup = strip(d.arg(1))
-    okp = tup[0] == "agg" and tup[1].get("agg") == "tuple" and len(tup[2]) == 2
+    okp = tup[0] == "agg" and tup[1].get("agg") == "tuple" and len(tup[2]) >= 2     # (further components may ride along: e.g. a remaining skip budget)
     run.ob("%s|history|hand-off-payload" % C.READ, okp, d.sp, "done carries (last scanned id, delivered count): %s" % fmt(tup)[:160], reason="hand-off-payload")
     if okp:
         lid = tup[2][0]
